@@ -28,6 +28,7 @@ def run(binary, prop, st, seed, logdir, env, known, jobs):
         e["VERIF_FZ_OUT"] = out
         e["VERIF_FZ_LOG"] = logdir
         e["VERIF_FZ_WORKER"] = str(1000 + w)
+        e["VERIF_FZ_STRATA"] = ",".join(str(x) for x in strata)
         if os.path.exists(known):
             e["VERIF_FZ_KNOWN"] = known
         e["ASAN_OPTIONS"] = e["ASAN_OPTIONS"] + ":handle_segv=0:handle_sigbus=0:handle_abort=0:handle_sigfpe=0:handle_sigill=0"
